@@ -26,6 +26,7 @@ func main() {
 	verbose := flag.Bool("v", false, "print every obligation")
 	list := flag.Bool("list", false, "list properties and their rules")
 	noReplay := flag.Bool("noreplay", false, "do not write a replay file (used by the self-test on scratch copies)")
+	dumpTwins := flag.Int("dump-twins", 0, "print groups of same-shaped functions with at least this many tokens (maintenance)")
 	dumpConsts := flag.Bool("dump-consts", false, "print the error-constant table extracted from the source (maintenance)")
 	flag.Parse()
 
@@ -36,6 +37,15 @@ func main() {
 		for _, p := range rules.PropertyIDs() {
 			fmt.Printf("%s: %s\n", p, strings.Join(rules.Properties[p].Rules, " "))
 		}
+		return
+	}
+	if *dumpTwins > 0 {
+		ctx, err := core.Load(*repo)
+		if err != nil {
+			fmt.Fprintln(os.Stderr, err)
+			os.Exit(2)
+		}
+		rules.DumpTwinCandidates(ctx, *dumpTwins)
 		return
 	}
 	if *dumpConsts {
